@@ -149,9 +149,10 @@ def unknown_field(rng):
 class C18(Prop):
     id = "C18"
     props = "C18_Props"
-    coq_files = ("Base", "C18_Model", "C18_Spec", "C18_Proofs", "C18_Instances", "C18_Hist", "C18_Props")
+    coq_files = ("Base", "C18_Model", "C18_Spec", "C18_Proofs", "C18_Instances", "C18_Hist", "C18_Consts", "C18_Wiring", "C18_Props")
     models = ("C18_Model",)
     packages = {"int": "internal", "gu": "internal/grpcutil"}
+    consts = ("int",)
     kinds = {"c18.err_connect": "int", "c18.err_go": "int", "c18.http": "int", "c18.codec_rt": "int", "c18.codec_unknown": "int",
              "c18.codec_hist": "int", "c18.alias_http": "int", "c18.alias_md": "gu",
              "c18.err_grpc": "gu", "c18.md": "gu", "c18.md_back": "gu", "c18.outgoing": "gu", "c18.escape": "gu",
@@ -201,15 +202,36 @@ class C18(Prop):
     level_text = ("Machine-checked proof (Coq) that the model of the six error conversions, the header<->metadata conversions, the outgoing-context "
                   "path, AddHeaders/ConvertToProtoHeader, percent-encoding and the strict codecs' own logic are lossless: round-trip laws for ALL "
                   "inputs and, for the header/metadata conversions and the codecs, for all HISTORIES in which the converted structures / message objects are "
-                  "used further (explicit-memory model: conversions_do_not_alias; codec_stateless; detail bytes handed on verbatim) (21 theorems, closed under the global context), the libraries entering as quantified functions under explicit round-trip "
+                  "used further (explicit-memory model: conversions_do_not_alias; codec_stateless; detail bytes handed on verbatim) (22 theorems, closed under the global context), the libraries entering as quantified functions under explicit round-trip "
                   "contracts that the extracted instances are proved to meet; the model is tied to the Go code by a differential run on every check.")
     level_note = ("Trusted: Coq kernel, extraction, OCaml driver, harness; base64/protobuf/protojson/connect are contracts (base64 instance proved and "
                   "compared with Go), grpc-go/net/url/textproto behaviour is modelled and compared; the model-code correspondence is sampled "
-                  "(exhaustive over the 256 bytes and the small alphabets named in the rule), not proved. Nothing is partial: no theorem carries the suffix.")
+                  "(exhaustive over the 256 bytes and the small alphabets named in the rule), not proved. Nothing is partial: no theorem carries the suffix. "
+                  "Which peer installs which strict codec is set-up code outside this property: the table is regenerated from the peers' sources "
+                  "(C18_Consts.v), recorded in the evidence and never pinned; strict_where_installed says what the codec theorems give for a peer that "
+                  "installs a codec on every path (on /repo: the reference server for JSON; StrictProtoCodec is installed by no peer).")
     technique = "Coq round-trip proofs over contract-parametrised model; differential model-vs-Go correspondence"
 
     def nontrivial(self, case, res):
         return len(res) > 12
+
+    def extra(self, ctx):
+        """descriptive only: which peer installs which strict codec (C18_Consts.v, regenerated from the peers' sources) goes
+        into the evidence; nothing is demanded of it (which codec a peer installs is outside C18, see C18_Wiring.v)"""
+        import os
+        import re
+        from ..core import COQ
+        try:
+            text = open(os.path.join(COQ, "theories", "C18_Consts.v")).read()
+            peers = {1: "referenceserver", 2: "referenceclient", 3: "grpcserver", 4: "grpcclient"}
+            codecs = {1: "StrictJSONCodec", 2: "StrictProtoCodec"}
+            ctx.notes["strict_codec_registrations"] = [
+                "%s installs %s %s" % (peers.get(int(p), p), codecs.get(int(c), c),
+                                       "on every path" if int(g) == 0 else "under %s condition(s)" % g)
+                for p, c, g in re.findall(r"\((\d+), (\d+), (\d+)\)", text)]
+        except OSError:
+            pass
+        return []
 
     def describe(self, case, g, m):
         return {"c18.err_connect": "proto<->connect error conversion", "c18.err_go": "error->connect/proto conversion",
